@@ -63,7 +63,13 @@ func (p sPoint) timeVal() string {
 }
 
 func (p sPoint) val() string {
-	return vL(vS(p.Type), vS(p.Key), p.timeVal(), vN(p.VBits), vS(p.Text), vB(p.Data), vZ(int64(p.Tomb)), vS(p.Origin))
+	// values are float64 values: negative zero is the value zero (the store keeps it as 0), so the model is handed
+	// the one pattern for both, in requests as in what is read back or rebroadcast
+	vb := p.VBits
+	if vb == 0x8000000000000000 {
+		vb = 0
+	}
+	return vL(vS(p.Type), vS(p.Key), p.timeVal(), vN(vb), vS(p.Text), vB(p.Data), vZ(int64(p.Tomb)), vS(p.Origin))
 }
 
 func sPointsVal(ps []sPoint) string {
